@@ -406,6 +406,10 @@ func lexTaskCommands(l *Lexer) lexFn {
 		case r == '\n':
 			// If there's a newline, might be more commands on the next line
 			l.backup()
+			// Windows line endings, the carriage return is not part of the command
+			for strings.HasSuffix(l.all(), "\r") {
+				l.pos--
+			}
 			l.emit(token.COMMAND)
 			l.skipWhitespace()
 		case strings.HasPrefix(l.rest(), token.LINTERP.String()):
@@ -419,7 +423,7 @@ func lexTaskCommands(l *Lexer) lexFn {
 		case r == '}':
 			l.backup()
 			// The command may end in a space which we should clean up
-			if strings.HasSuffix(l.all(), " ") {
+			for strings.HasSuffix(l.all(), " ") || strings.HasSuffix(l.all(), "\r") {
 				l.pos--
 			}
 			if len(l.all()) != 0 {
